@@ -212,3 +212,139 @@ def extra_checks(tier, seed):
     return {'lemmas': [{'name': 'C02.crypto.cipher._cipher_alg_list#block-sizes-in-{1,8,16}',
                         'verdict': 'proved' if ok else 'refuted', 'detail': sorted(sizes),
                         'backend': 'data (AST literal)', 'replayed': True}]}
+
+
+# ------------------------------------------------------------------ send_newkeys: RFC 4253 7.2 letters / directions
+kdf = z3.Function('kdf', BytesS, BytesS, BytesS, BytesS, IntS, BytesS)   # compute_key(k, h, letter, sid, size)
+
+NK_FIELDS = dict(CONN_FIELDS, **{
+    '_session_id': 'bytes', '_enc_alg_cs': 'bytes', '_enc_alg_sc': 'bytes', '_mac_alg_cs': 'bytes',
+    '_mac_alg_sc': 'bytes', '_cmp_alg_cs': 'bytes', '_cmp_alg_sc': 'bytes',
+    '_extensions_to_send': 'dict[bytes,bytes]', '_sig_algs': 'seq[bytes]', '_wait': 'opt[str]',
+    '_waiter': 'opt[obj:Future]', '_can_send_ext_info': 'bool', '_next_service': 'opt[bytes]',
+    '_next_recv_blocksize': 'int', '_next_recv_macsize': 'int', '_next_decompressor': 'opt[obj:Decompressor]',
+    '_next_decompress_after_auth': 'bool',
+})
+ENC_GHOST = {'ghost_alg': 'bytes', 'ghost_key': 'bytes', 'ghost_iv': 'bytes', 'ghost_macalg': 'bytes',
+             'ghost_mackey': 'bytes', 'ghost_etm': 'bool'}
+
+
+def compute_key_stub(cx):
+    k, h, x, sid, n = cx.args
+    return [Out(ret=VBytes(kdf(k.z, h.z, x.z, sid.z, n.z)), event=('compute_key', tuple(cx.args)))]
+
+
+compute_key_stub.modifies = ()
+
+
+def get_encryption_stub(cx):
+    o = cx.fresh('obj:Encryption', 'enc')
+    a = cx.args
+    for f, v in zip(('ghost_alg', 'ghost_key', 'ghost_iv', 'ghost_macalg', 'ghost_mackey'), a[:5]):
+        cx.st.set_field(o, f, v)
+    cx.st.set_field(o, 'ghost_etm', VBool(cx.ex.truthy(cx.st, a[5])))
+    return [Out(ret=o)]
+
+
+get_encryption_stub.modifies = ()
+
+enc_params = z3.Function('enc_param', BytesS, BytesS, IntS, IntS)        # (enc_alg, mac_alg, index) -> value
+etm_param = z3.Function('etm_param', BytesS, BytesS, BoolS)
+
+
+def enc_params_stub(cx):
+    e, m = cx.args[0].z, cx.args[1].z
+    vals = [VInt(enc_params(e, m, z3.IntVal(i))) for i in range(5)] + [VBool(etm_param(e, m))]
+    return [Out(ret=VTuple(vals), assume=[v.z >= 0 for v in vals[:5]])]
+
+
+enc_params_stub.modifies = ()
+
+
+def letter(ch):
+    return bytes_const(ch)
+
+
+def newkeys_keys(c):
+    """client->server keys use A (IV), C (cipher key), E (MAC key); server->client B, D, F; the client sends with
+    the c->s set and receives with the s->c set, the server the other way round (RFC 4253 7.2)"""
+    if c.raised is not None:
+        return z3.BoolVal(True)
+    st = c.new_state
+    send = c.newv('_send_encryption')
+    recv = c.newv('_next_recv_encryption')
+    isc = c.old('_is_client')
+    k, h = c.arg('k'), c.arg('h')
+    sid = z3.If(z3.Length(c.old('_session_id')) > 0, c.old('_session_id'), h)
+    conj = [z3.Not(c.is_none(send)), z3.Not(c.is_none(recv)), c.new('_session_id') == sid]
+    send = send if isinstance(send, VOpt) else VOpt(z3.BoolVal(False), send)
+    recv = recv if isinstance(recv, VOpt) else VOpt(z3.BoolVal(False), recv)
+    if isinstance(send.val, VRef) and isinstance(recv.val, VRef):
+        def g(ref, f):
+            return st.rec(ref).fields[f].z
+
+        def expect(ref, cs):
+            e = c.old('_enc_alg_cs') if cs else c.old('_enc_alg_sc')
+            m = c.old('_mac_alg_cs') if cs else c.old('_mac_alg_sc')
+            L = (b'A', b'C', b'E') if cs else (b'B', b'D', b'F')
+            return z3.And(g(ref, 'ghost_alg') == e, g(ref, 'ghost_macalg') == m,
+                          g(ref, 'ghost_iv') == kdf(k, h, letter(L[0]), sid, enc_params(e, m, z3.IntVal(1))),
+                          g(ref, 'ghost_key') == kdf(k, h, letter(L[1]), sid, enc_params(e, m, z3.IntVal(0))),
+                          g(ref, 'ghost_mackey') == kdf(k, h, letter(L[2]), sid, enc_params(e, m, z3.IntVal(3))),
+                          g(ref, 'ghost_etm') == etm_param(e, m))
+        conj.append(z3.If(isc, z3.And(expect(send.val, True), expect(recv.val, False)),
+                          z3.And(expect(send.val, False), expect(recv.val, True))))
+    return z3.And(conj)
+
+
+def newkeys_framing(c):
+    """send side framing parameters follow the negotiated algorithm of the sending direction"""
+    if c.raised is not None:
+        return z3.BoolVal(True)
+    isc = c.old('_is_client')
+    e = z3.If(isc, c.old('_enc_alg_cs'), c.old('_enc_alg_sc'))
+    m = z3.If(isc, c.old('_mac_alg_cs'), c.old('_mac_alg_sc'))
+    bs = enc_params(e, m, z3.IntVal(2))
+    return z3.And(c.new('_send_blocksize') == z3.If(bs > 8, bs, 8),
+                  c.new('_send_enchdrlen') == z3.If(etm_param(e, m), 1, 5))
+
+
+def newkeys_order(c):
+    """NEWKEYS goes out before the new send keys are installed and before _kex_complete is raised"""
+    sends = [x for x in c.calls() if x['key'] == 'self.send_packet']
+    ok = [z3.BoolVal(len(sends) >= 1)]
+    if sends:
+        ok.append(sends[0]['args'][0].z == 21)
+    if c.raised is None:
+        ok.append(c.is_none(c.newv('_kex')))
+    return z3.And(ok)
+
+
+send_newkeys = Spec(
+    'C02', 'connection', 'SSHConnection.send_newkeys', self_class='SSHConnection',
+    params=dict(k='bytes', h='bytes'),
+    classes=dict(CONN_CLASSES, SSHConnection=NK_FIELDS, Encryption=ENC_GHOST, Future={}),
+    stubs=dict(ROLE_STUBS, **{
+        'get_encryption_params': enc_params_stub,
+        'get_compression_params': ret('bool', 'cmp_after_auth'),
+        'self._kex.compute_key': compute_key_stub,
+        'get_encryption': get_encryption_stub,
+        'get_compressor': ret('opt[obj:Compressor]', 'compressor'),
+        'get_decompressor': ret('opt[obj:Decompressor]', 'decompressor'),
+        'self.send_packet': noop('send_packet'),
+        'self.set_extra_info': noop(),
+        'self._waiter.cancelled': ret('bool', 'cancelled'),
+        'self._waiter.set_result': noop('waiter_set'),
+        'self._send_ext_info': noop('ext_info'),
+        'self.send_service_request': noop('service_request'),
+        'self._send_deferred_packets': noop('flush_deferred'),
+    }),
+    requires=lambda c: z3.And(z3.Not(c.is_none(c.oldv('_kex'))), z3.Length(c.arg('h')) > 0),
+    ensures=[('rfc4253-7.2-letters-and-directions', newkeys_keys),
+             ('send-framing-follows-sending-direction', newkeys_framing),
+             ('kex-complete-after-newkeys', lambda c: z3.Or(
+                 c.new('_kex_complete'),
+                 # the early return for a connect() waiting only for the key exchange
+                 z3.BoolVal(len(c.events('waiter_set')) == 1)))],
+    always=[('newkeys-first', newkeys_order)],
+    raises={'UnicodeDecodeError': True, 'AssertionError': lambda c: z3.BoolVal(False)})
